@@ -544,7 +544,7 @@ def stale_captures(repo, rep):
 
 
 def run(repo, rep, tier):
-    rep.rule("R-C11-12", "every parameter of the functions behind this property is read (writers): none is accepted and then ignored")
+    rep.rule("R-C11-12", "every parameter of the functions behind this property is read (writers): none is accepted and then ignored, and no control parameter (cutoff, limit, tolerance, window, count, switch) is replaced by another value before use (coercion and default filling aside)")
     from .shared import unused_parameters
     unused_parameters(repo, rep, "R-C11-12", ("wavespectra.output",), "writers")
     rep.rule("R-C11-1", "SWAN ASCII: keywords written are recognised; NODATA/ZERO/FACTOR cases; factor written then multiplied back; time format equal; unit line selects the identity branch")
